@@ -361,6 +361,8 @@ func runC19(c *Ctx) {
 			"an empty text is returned without an error at "+bad+": with -include_text the classification of a one-line span (a license on one long line, a Copyright match) carries no text")
 	}
 
+	checkToolOutputRules(c, p)
+
 	// ---- R19.10 what is recorded for a file is built from that file's matches -----------
 	// every value appended to the result list is a LicenseType built by a composite literal of this call (whose fields
 	// R19.1 ties to the match and to the file name) - not an element fetched from somewhere else (a cache of what was found
@@ -1379,4 +1381,207 @@ func isFileContents(v ssa.Value, cl *ssa.Function, depth int) (bool, string) {
 		}
 	}
 	return false, "the bytes handed to Match are not the result of ReadFile(filename) of this call (" + eng.Describe(v) + "): bytes from elsewhere (a reused buffer, another file) would be classified under this file's name"
+}
+
+
+// checkToolOutputRules: three rules on how the tool produces its output.
+// R19.13 what is printed reaches the terminal whichever way the tool ends: a Flush that is only deferred does not run when
+// the function goes on to log.Fatal / os.Exit, so a buffered writer over the standard output loses the lines printed.
+// R19.14 the Text of a classification is read from that classification's own file: every source of the value stored into
+// a Text field is a call that is handed the classification's file name, or a table looked up with a key that includes it.
+// R19.15 a pattern that is anchored by concatenation ("^" + p + "$") is grouped first: without the group an alternation in
+// p takes the anchors to its outer alternatives only, and names that merely begin or end like one of them match.
+func checkToolOutputRules(c *Ctx, p *core.Prog) {
+	pkgs := []string{cliPkg, backendPkg, resultsPkg}
+	var fns []*ssa.Function
+	for _, pk := range pkgs {
+		fns = append(fns, pkgFuncs(p, pk)...)
+	}
+	// ---- R19.13 ----
+	nExit := 0
+	for _, fn := range fns {
+		var exits []ssa.CallInstruction
+		for _, call := range core.CallsIn(fn) {
+			n := core.StaticCalleeName(call.Common())
+			if isFatal(call) || n == "os.Exit" {
+				exits = append(exits, call)
+			}
+		}
+		nExit += len(exits)
+		for _, b := range fn.Blocks {
+			for i, in := range b.Instrs {
+				df, ok := in.(*ssa.Defer)
+				if !ok {
+					continue
+				}
+				cal := df.Call.StaticCallee()
+				if cal == nil || cal.Name() != "Flush" {
+					continue
+				}
+				bad := ""
+				for _, ex := range exits {
+					if ex.Block() == b {
+						for _, later := range b.Instrs[i+1:] {
+							if later == ssa.Instruction(ex) {
+								bad = p.Pos(ex.Pos())
+							}
+						}
+					} else if reaches(b, ex.Block()) {
+						bad = p.Pos(ex.Pos())
+					}
+				}
+				c.R.Check(bad == "", "R19.13", core.ShortFn(fn)+": a deferred Flush is not followed by an exit that skips it", p.Pos(df.Pos()), "no log.Fatal / os.Exit behind the defer",
+					"the Flush of "+core.TypeName(df.Call.Args[0].Type())+" is deferred, and the function can go on to end the process at "+bad+": deferred calls do not run then, and what was written to the buffer is never printed")
+			}
+		}
+	}
+	c.R.Count("R19.13:process exits in the tool", nExit)
+	c.R.OK("R19.13", "the tool's functions: no deferred Flush in front of a process exit", cliPkg, fmt.Sprintf("%d calls of log.Fatal*/os.Exit examined", nExit))
+	c.R.RequireMin("R19.13", "calls that end the process in the tool", nExit, 2)
+
+	// ---- R19.14 ----
+	var depFile func(v ssa.Value, seen map[ssa.Value]bool) bool
+	depFile = func(v ssa.Value, seen map[ssa.Value]bool) bool {
+		if v == nil || seen[v] {
+			return false
+		}
+		seen[v] = true
+		if fa, ok := v.(*ssa.FieldAddr); ok && core.FieldName(fa) == "Filename" {
+			return true
+		}
+		if fl, ok := v.(*ssa.Field); ok {
+			if st, isSt := fl.X.Type().Underlying().(*types.Struct); isSt && st.Field(fl.Field).Name() == "Filename" {
+				return true
+			}
+		}
+		if ld, ok := v.(*ssa.UnOp); ok && ld.Op == token.MUL {
+			if al, isAl := ld.X.(*ssa.Alloc); isAl && al.Referrers() != nil {
+				// a local struct (a composite key): what was stored into it and into its fields
+				for _, r := range *al.Referrers() {
+					switch x := r.(type) {
+					case *ssa.Store:
+						if x.Addr == ssa.Value(al) && depFile(x.Val, seen) {
+							return true
+						}
+					case *ssa.FieldAddr:
+						if x.Referrers() != nil {
+							for _, r2 := range *x.Referrers() {
+								if st, isSt := r2.(*ssa.Store); isSt && st.Addr == ssa.Value(x) && depFile(st.Val, seen) {
+									return true
+								}
+							}
+						}
+					}
+				}
+			}
+		}
+		in, ok := v.(ssa.Instruction)
+		if !ok {
+			return false
+		}
+		for _, op := range in.Operands(nil) {
+			if *op != nil && depFile(*op, seen) {
+				return true
+			}
+		}
+		return false
+	}
+	nText := 0
+	for _, fn := range pkgFuncs(p, resultsPkg) {
+		for _, b := range fn.Blocks {
+			for _, in := range b.Instrs {
+				st, ok := in.(*ssa.Store)
+				if !ok {
+					continue
+				}
+				fa, ok := st.Addr.(*ssa.FieldAddr)
+				if !ok || core.FieldName(fa) != "Text" || !strings.HasSuffix(core.TypeName(fa.X.Type()), "results.Classification") {
+					continue
+				}
+				nText++
+				bad := ""
+				seen := map[ssa.Value]bool{}
+				var walk func(v ssa.Value)
+				walk = func(v ssa.Value) {
+					if seen[v] {
+						return
+					}
+					seen[v] = true
+					switch x := v.(type) {
+					case *ssa.Phi:
+						for _, e := range x.Edges {
+							walk(e)
+						}
+					case *ssa.Const:
+					case *ssa.Extract:
+						walk(x.Tuple)
+					case *ssa.Call:
+						okArg := false
+						for _, a := range x.Call.Args {
+							if depFile(a, map[ssa.Value]bool{}) {
+								okArg = true
+							}
+						}
+						if !okArg {
+							bad = "a call that is not handed the file name (" + p.Pos(x.Pos()) + ")"
+						}
+					case *ssa.Lookup:
+						if !depFile(x.Index, map[ssa.Value]bool{}) {
+							bad = "a table looked up with a key that does not include the file name (" + p.Pos(x.Pos()) + ")"
+						}
+					default:
+						bad = "a value of another origin (" + p.Pos(v.Pos()) + ")"
+					}
+				}
+				walk(st.Val)
+				c.R.Check(bad == "", "R19.14", core.ShortFn(fn)+": the Text of a classification is read from its own file", p.Pos(st.Pos()), "every source is handed the classification's file name",
+					"the text stored comes from "+bad+": a classification of another file with the same line range gets this text")
+			}
+		}
+	}
+	c.R.RequireMin("R19.14", "stores into Classification.Text", nText, 1)
+
+	// ---- R19.15 ----
+	nRe := 0
+	for _, fn := range fns {
+		for _, call := range core.CallsIn(fn) {
+			n := core.StaticCalleeName(call.Common())
+			if n != "regexp.Compile" && n != "regexp.MustCompile" && n != "regexp.CompilePOSIX" && n != "regexp.MustCompilePOSIX" {
+				continue
+			}
+			nRe++
+			var parts []ssa.Value
+			var flat func(v ssa.Value)
+			flat = func(v ssa.Value) {
+				if b, ok := v.(*ssa.BinOp); ok && b.Op == token.ADD {
+					flat(b.X)
+					flat(b.Y)
+					return
+				}
+				parts = append(parts, v)
+			}
+			flat(call.Common().Args[0])
+			bad := false
+			for i, pt := range parts {
+				if _, isC := pt.(*ssa.Const); isC {
+					continue
+				}
+				before, after := "", ""
+				if i > 0 {
+					before, _ = core.ConstString(parts[i-1])
+				}
+				if i+1 < len(parts) {
+					after, _ = core.ConstString(parts[i+1])
+				}
+				anchored := strings.HasSuffix(before, "^") || strings.HasPrefix(after, "$") || strings.HasSuffix(before, `\A`) || strings.HasPrefix(after, `\z`)
+				grouped := strings.HasSuffix(before, "(") || strings.HasSuffix(before, "(?:")
+				if anchored && !(grouped && strings.HasPrefix(after, ")")) {
+					bad = true
+				}
+			}
+			c.R.Check(!bad, "R19.15", core.ShortFn(fn)+": a pattern given by the user is anchored only inside a group", p.Pos(call.Pos()), "not anchored by concatenation, or grouped",
+				"the pattern is built as \"^\" + p + \"$\" without a group around p: for p = a|b the anchors bind to a and to b separately (^a | b$), so paths that only begin like a or end like b are matched as well")
+		}
+	}
+	c.R.RequireMin("R19.15", "regular expressions compiled by the tool", nRe, 1)
 }
